@@ -574,7 +574,7 @@ func c1clip(s string) string {
 func (x *c1runner) class(p c1prog, texts []string, canonP, canonQ string, applied map[string]int) string {
 	// 1. several marked disjunctions at one node: the difference disappears without marks
 	nm := c1countMarks(p.src)
-	if nm >= 2 || (p.stream == "marks" && nm >= 1) {
+	if nm >= 2 {
 		if sp, ok := c1stripMarks(p.src); ok {
 			var sq []string
 			good := true
@@ -621,7 +621,7 @@ func c1classify(p c1prog, base, res c1res, diffs []c1diff, texts ...string) (str
 	if len(diffs) == 0 {
 		return "", nil
 	}
-	hasRef := strings.Contains(p.src, ".") || strings.Contains(p.src, "[")
+	hasRef := true // an error whose class differs always comes from evaluating a reference / expression
 	bothErr := base.info.nErr > 0 && res.info.nErr > 0
 	embRef := c1hasEmbeddedRef(p.src)
 	embRefSyn := embRef
@@ -644,7 +644,8 @@ func c1classify(p c1prog, base, res c1res, diffs []c1diff, texts ...string) (str
 	sibRef := c1hasSiblingRefConj(p.src)
 	aliasConj := !embRef && !sibFirst && c1hasAliasAllRefConj(p.src)
 	nestedMark := c1hasNestedMark(p.src)
-	patRef := !embRefSyn && c1hasPatternRef(p.src) && strings.Contains(p.src, "|")
+	patRef := false
+	_ = embRefSyn
 	// paths at which one side reports an error: a differing ancestor of such a path is derived
 	var errPaths []string
 	for _, d := range diffs {
@@ -676,6 +677,11 @@ func c1classify(p c1prog, base, res c1res, diffs []c1diff, texts ...string) (str
 			found["default-of-nested-marked-disjunction-depends-on-operand-order"] = true
 		case patRef && d.kind == "value" && !sibFirst && !aliasConj:
 			found["disjunct-selection-under-pattern-constraint-with-reference"] = true
+		case d.kind == "value" && c1disjSubset(sa, sb):
+			// one arrangement lists a disjunct more, and every other disjunct agrees: the
+			// evaluator does not simplify by subsumption and canon's subsumption test
+			// (internal/core/subsume) is incomplete for nested disjunctions / incomplete fields
+			found["disjunct-set-differs-by-one-listed-disjunct"] = true
 		case d.kind == "err-collapse":
 			found["erroneous-node-bare-bottom-or-struct-with-erroneous-children"] = true
 		case listCompr && c1listElemRe.MatchString(d.path) && d.kind != "err-class":
@@ -750,6 +756,7 @@ func c1classify(p c1prog, base, res c1res, diffs []c1diff, texts ...string) (str
 		"missing-field-reference-fatal-vs-incomplete",
 		"closedness-through-sibling-field-references-depends-on-order", "error-placement-through-reference",
 		"erroneous-node-bare-bottom-or-struct-with-erroneous-children",
+		"disjunct-set-differs-by-one-listed-disjunct",
 		"closed-flag-of-vertex-depends-on-arrangement", "allows-answer-of-vertex-depends-on-arrangement"} {
 		if found[c] {
 			return c, found
@@ -785,7 +792,7 @@ func c1Shapes(p c1prog, texts []string) map[string]bool {
 	if c1selfRef(p.src) {
 		sh["S"] = true
 	}
-	if n := c1countMarks(p.src); n >= 2 || (p.stream == "marks" && n >= 1) {
+	if n := c1countMarks(p.src); n >= 2 {
 		sh["M"] = true
 	}
 	if c1hasFieldListComprehension(p.src) {
@@ -799,9 +806,6 @@ func c1Shapes(p c1prog, texts []string) map[string]bool {
 	}
 	if c1hasNestedMark(p.src) {
 		sh["N"] = true
-	}
-	if c1hasPatternRef(p.src) {
-		sh["P"] = true
 	}
 	return sh
 }
@@ -822,6 +826,7 @@ var c1classShape = map[string]string{
 	"missing-field-reference-inside-comprehension-fatal-vs-incomplete": "C",
 	"error-placement-through-reference":                        "",
 	"cyclic-mutual-constraint-error-placement":                 "*",
+	"disjunct-set-differs-by-one-listed-disjunct":              "*",
 	"erroneous-node-bare-bottom-or-struct-with-erroneous-children": "*",
 	"allows-answer-of-vertex-depends-on-arrangement":           "*",
 	"closed-flag-of-vertex-depends-on-arrangement":             "*",
@@ -1138,6 +1143,59 @@ func c1hasPatternRef(src string) bool {
 	return found
 }
 
+// c1disjuncts splits the canonical rendering of a value into its top-level disjuncts (a
+// non-disjunction is its own single disjunct); ok=false when default sets are involved.
+func c1disjuncts(s string) (out []string, ok bool) {
+	if i := strings.Index(s, ")=>"); i >= 0 {
+		return nil, false
+	}
+	if !strings.HasPrefix(s, "|(") || !strings.HasSuffix(s, ")") {
+		return []string{s}, true
+	}
+	body := s[2 : len(s)-1]
+	depth, start := 0, 0
+	inStr := false
+	for i := 0; i < len(body); i++ {
+		switch c := body[i]; {
+		case c == '"' && (i == 0 || body[i-1] != '\\'):
+			inStr = !inStr
+		case inStr:
+		case c == '(' || c == '{' || c == '[':
+			depth++
+		case c == ')' || c == '}' || c == ']':
+			depth--
+		case c == ';' && depth == 0:
+			return nil, false
+		case c == ',' && depth == 0:
+			out = append(out, body[start:i])
+			start = i + 1
+		}
+	}
+	return append(out, body[start:]), true
+}
+
+// c1disjSubset: the disjunct lists differ by exactly the extra disjuncts of one side.
+func c1disjSubset(a, b string) bool {
+	da, ok1 := c1disjuncts(a)
+	db, ok2 := c1disjuncts(b)
+	if !ok1 || !ok2 || len(da) == len(db) {
+		return false
+	}
+	if len(da) > len(db) {
+		da, db = db, da
+	}
+	set := map[string]bool{}
+	for _, x := range db {
+		set[x] = true
+	}
+	for _, x := range da {
+		if !set[x] {
+			return false
+		}
+	}
+	return true
+}
+
 // c1hasMaybeEmptyComprehension: a comprehension that may yield nothing: an `if` clause, or a
 // `for` over anything but a non-empty literal.
 func c1isTrue(e ast.Expr) bool {
@@ -1274,6 +1332,11 @@ func c1hasEmbeddedRef(src string) bool {
 				operand(x.Y)
 			}
 		}
+	}
+	if c1hasPatternRef(src) {
+		// a pattern constraint whose value is a reference brings a (closed) value in
+		// indirectly, like an embedding
+		return true
 	}
 	skip := map[ast.Node]bool{}
 	ast.Walk(f, func(n ast.Node) bool {
